@@ -62,14 +62,18 @@ Definition contained (want : trec) (issued : ttype) (access : xtok) (rt : sid) (
   | _ => false
   end.
 
-(* a request the provider has to serve: Basic credentials the storage accepts, live tokens of
+(* a request the provider has to serve: Basic credentials the storage accepts, of a client
+   registered for basic / post and for the token-exchange grant, live tokens of
    the declared types, an issuable (or absent) requested type, no veto *)
 Definition promised (cl : list client) (g : store) (c : cred) (subj : tokstr) (styp : ttype)
     (actor : option (tokstr * ttype)) (req : ttype) (scopes : list string) : bool :=
   match c with
   | Basic i s | Both i s _ =>
       nonempty i && sec_ok cl i s
-      && match find_client cl i with Some k => match c_auth k with AMBasic | AMPost => true | _ => false end | None => false end
+      && match find_client cl i with
+         | Some k => c_exchange k && match c_auth k with AMBasic | AMPost => true | _ => false end
+         | None => false
+         end
   | _ => false
   end
   && subj_live g styp subj && actor_live g actor && issuable req && negb (string_in "veto" scopes).
@@ -99,7 +103,7 @@ Fixpoint spec_run (cl : list client) (g : store) (ops : list op) (xs : list out)
   end.
 
 Definition spec (i : input) (o : observed) : bool :=
-  match i with Hist cl ops => spec_run cl (Store [] []) ops o end.
+  match i with Hist cl ops => spec_run cl (Store [] []) (located ops) o end.
 
 Definition obs_eqb (a b : observed) : bool := list_eqb out_eqb a b.
 
